@@ -532,6 +532,10 @@ def simulate(rng, tmp, p):
                 rename[r["name"]] = "read%d" % k
     sim.bam_names = rename
     sim.bams = []
+    sim.bam_of = {}  # original fragment name -> index of the file (= source id) it was written to
+    for gi, (g, reads) in enumerate(groups.items()):
+        for r in reads:
+            sim.bam_of[r["name"]] = gi
     for g, reads in groups.items():
         path = os.path.join(tmp, "reads_%s.bam" % g)
         order = sorted(reads, key=lambda r: (sim.chroms.index(r["chrom"]), r["start"]))
